@@ -35,7 +35,7 @@ class Run(object):
         self.flags = dict(DEFAULT_FLAGS)
         self.flags.update(scn.get("flags") or {})
         self.flags.update(flags or {})
-        self.outcomes = scn.get("outcomes") or {}
+        self.outcomes = {k: [list(x) for x in v] for k, v in (scn.get("outcomes") or {}).items()}  # own copy: checks edit it
         self.count = {}  # task -> completions so far
         self.seq = 0
         self.pauses = 0
